@@ -254,6 +254,14 @@ func (s *Schema) apply(stmt, file string) {
 			i++
 		}
 		s.tableItem(t, tk[i:], file)
+	case up(tk[0]) == "ALTER" && len(tk) > 5 && up(tk[1]) == "TABLE" && up(tk[3]) == "RENAME" && up(tk[4]) == "TO":
+		if t := s.Tables[tk[2]]; t != nil {
+			delete(s.Tables, tk[2])
+			t.Name = tk[5]
+			s.Tables[tk[5]] = t
+		} else {
+			s.Problems = append(s.Problems, file+": ALTER TABLE RENAME on unknown table "+tk[2])
+		}
 	case up(tk[0]) == "DROP" && len(tk) > 2 && up(tk[1]) == "TABLE":
 		delete(s.Tables, tk[len(tk)-1])
 	case up(tk[0]) == "DELETE" || up(tk[0]) == "UPDATE" || up(tk[0]) == "INSERT":
